@@ -112,6 +112,7 @@ def check_entry(rep, facts, entry, init, label):
 def run(rep, facts):
     rep.rule("R8.1", "at every transport read (poll_read on the reader type parameter, or await of AsyncReadExt::read): "
                      "P (every buffered complete record parsed) and F_req, F_stream (parser reply buffers handed to the transport) hold on all paths")
+    rep.rule("R8.4", "a stream switch (set_stream, also issued by close() and writeable()) demotes only the delivering state: a management body in flight keeps its state and its reply stays owed (R4.5)")
     rep.rule("R8.3", "both parsers' parse() drive their state machine / processing loop on every successful return (necessary condition of the assumption that parse() consumes what is buffered)")
     rep.rule("R8.2", "at into_stream_parser / into_request_parser the converted parser's reply buffer is flushed on all paths")
     rep.assume("a parser's parse() processes every complete buffered record unless it returns stream data, end-of-stream or an error")
@@ -133,6 +134,13 @@ def run(rep, facts):
     for i in sr.instances:
         if i["instance"] in ("parse/clear-then-drive", "parse/drives-state-machine", "stream-parse/always-processes"):
             (rep.ok if i["status"] == "ok" else rep.violation)("R8.3", i["instance"], i["detail"], i["loc"])
+    # R8.4: a reply that is owed is not silently cancelled: switching the active stream (close() does it for every request)
+    # leaves a partially received GetValues body alone (C04 R4.5), so its reply is still produced
+    from . import c04
+    sr4 = _check.Report("tmp", "quick")
+    c04.r4_5_state_writers(sr4, facts)
+    for i in sr4.instances:
+        (rep.ok if i["status"] == "ok" else rep.violation)("R8.4", i["instance"], i["detail"], i["loc"])
     # counted on the pinned tree: run reaches 4 transport reads (preamble, 2x poll_input via writeable/close, record_boundary);
     # each handler entry reaches 1
     rep.floor("R8.1", "transport reads reachable from the entry points", total_reads, 6)
